@@ -291,20 +291,26 @@ impl Iterator for Tokenizer<'_> {
                     use self::Text::*;
                     match lex.next() {
                         Some(Ok(Text)) => result += lex.slice(),
-                        Some(Ok(EscapeCharacter)) => match lex.slice().chars().nth(1).unwrap() {
-                            'n' => result.push('\n'),
-                            'r' => result.push('\r'),
-                            't' => result.push('\t'),
-                            '\\' => result.push('\\'),
-                            '"' => result.push('"'),
-                            '\'' => result.push('\''),
-                            c => {
-                                return Some(Err(LexicalError::new(
-                                    format!("Unknown escape character {c}"),
-                                    lex.span(),
-                                )))
+                        Some(Ok(EscapeCharacter)) => {
+                            // The token is a backslash and one more byte, which need not be a whole
+                            // character: read the character from the source, not from the slice.
+                            let start = lex.span().start;
+                            let c = lex.source()[start + 1..].chars().next().unwrap();
+                            match c {
+                                'n' => result.push('\n'),
+                                'r' => result.push('\r'),
+                                't' => result.push('\t'),
+                                '\\' => result.push('\\'),
+                                '"' => result.push('"'),
+                                '\'' => result.push('\''),
+                                c => {
+                                    return Some(Err(LexicalError::new(
+                                        format!("Unknown escape character {c}"),
+                                        start..start + 1 + c.len_utf8(),
+                                    )))
+                                }
                             }
-                        },
+                        }
                         Some(Ok(Codepoint)) => {
                             let slice = lex.slice();
                             let hex = slice[3..slice.len() - 1].replace('_', "");
